@@ -5,14 +5,21 @@ import CacheVerif.Model.Proto
 Owicki–Gries style: a global invariant `GI` and a per-thread invariant `LI u g l`; `self_ok` (a step of
 thread `t` re-establishes `GI` and `LI t`), `other_ok` (it preserves `LI u` of every other thread), and the
 lifting to every reachable state.  Corollaries are the statements used by properties C13, C16 and C05.
+
+Structure of the proof: `LI` = `LIg` (the clauses that mention the globals) + `WF` (well-formedness of the locals:
+op/pc consistency, shape of the continuation stack, the user-function counter).  `WF` is preserved by every
+step of the thread itself (`wf_step`, one lemma per pc) and trivially by the steps of the others; `LIg` is
+handled by one `self_*` and one `other_*` lemma per pc.
 -/
 set_option linter.unusedSectionVars false
+set_option linter.unusedVariables false
 namespace Proofs.ProtoLocks
 open Model.Proto
 
 variable {K V : Type} [DecidableEq K]
 
-/-- the bucket lock `(table generation, root bucket)` a thread holds, read off its pc -/
+/-! ## part: Defs -/
+
 def holdsBucket (l : L K V) : Option (Nat × Nat) :=
   match l.pc with
   | .dcChkResizing | .dcChkTable | .dcScan | .dcFn | .dcCommit | .dcUnlock
@@ -25,34 +32,994 @@ def holdsMu : Pc → Bool
   | .rzClearFlag | .rzBroadcast | .rzMuUnlock | .wfChk | .wfMuUnlock => true
   | _ => false
 
-/-- the thread owns the `resizing` flag -/
 def isResizer : Pc → Bool
   | .rzLoadTable | .rzDecide | .rzCopyLock | .rzCopyDo | .rzCopyUnlock | .rzPublish | .rzMuLock | .rzClearFlag => true
   | _ => false
 
-/-- pcs of `doCompute` before the user function is called (all retry edges leave from here) -/
 def beforeFn : Pc → Bool
   | .dcFast | .dcLoadTable | .dcLock | .dcChkResizing | .dcChkTable | .dcScan
   | .dcUnlockWait | .dcUnlockRetry | .dcUnlockGrow => true
   | _ => false
 
-/-- pcs of `doCompute` after the user function returned -/
 def afterFn : Pc → Bool
   | .dcCommit => true
   | _ => false
 
-def GI (g : G K V) : Prop := (g.resizing = true ↔ g.resizer.isSome)
+/-- pcs of `doCompute` -/
+def inDc : Pc → Bool
+  | .dcFast | .dcLoadTable | .dcLock | .dcChkResizing | .dcChkTable | .dcScan | .dcFn | .dcCommit
+  | .dcUnlock | .dcAddSize | .dcMaybeShrink | .dcUnlockWait | .dcUnlockRetry | .dcUnlockGrow => true
+  | _ => false
+
+def inRz : Pc → Bool
+  | .rzFast | .rzCas | .rzLoadTable | .rzDecide | .rzCopyLock | .rzCopyDo | .rzCopyUnlock | .rzPublish
+  | .rzMuLock | .rzClearFlag | .rzBroadcast | .rzMuUnlock => true
+  | _ => false
+
+def inWf : Pc → Bool
+  | .wfMuLock | .wfChk | .wfPark | .wfRelock | .wfMuUnlock => true
+  | _ => false
+
+/-- pcs of calls that are not `doCompute` and never become one -/
+def nonDcPc : Pc → Bool
+  | .ldTable | .szTable | .szSum | .clTable | .rgTable | .rgLock | .rgCopy | .rgUnlock | .rgVisit => true
+  | _ => false
+
+/-- pcs at which `l.tbl` is (or is about to be) used as a lock address -/
+def usesTbl : Pc → Bool
+  | .dcLock | .dcChkResizing | .dcChkTable | .dcScan | .dcFn | .dcCommit | .dcUnlock
+  | .dcUnlockWait | .dcUnlockRetry | .dcUnlockGrow | .rgLock | .rgCopy | .rgUnlock | .rgVisit => true
+  | _ => false
+
+def usesRtbl : Pc → Bool
+  | .rzDecide | .rzCopyLock | .rzCopyDo | .rzCopyUnlock => true
+  | _ => false
+
+def usesNewT : Pc → Bool
+  | .rzCopyLock | .rzCopyDo | .rzCopyUnlock | .rzPublish => true
+  | _ => false
+
+def isDcOp : Option (POp K V) → Bool
+  | some (.dc _ _ _ _) => true
+  | _ => false
+
+/-- `opKey`, as a function of the op alone -/
+def keyOf : Option (POp K V) → Option K
+  | some (.load k) => some k
+  | some (.dc k _ _ _) => some k
+  | _ => none
+
+/-- `dcFlags`, as a function of the op alone -/
+def flagsOf : Option (POp K V) → Bool × Bool
+  | some (.dc _ _ lie co) => (lie, co)
+  | _ => (false, false)
+
+theorem opKey_eq (l : L K V) : opKey l = keyOf l.op := by
+  unfold opKey keyOf; split <;> simp_all
+theorem dcFlags_eq (l : L K V) : dcFlags l = flagsOf l.op := by
+  unfold dcFlags flagsOf; split <;> simp_all
+
+section
+variable (k : K) (f : Option V → V × Bool) (lie co : Bool)
+@[simp] theorem isDcOp_dc : isDcOp (some (POp.dc k f lie co)) = true := rfl
+@[simp] theorem isDcOp_load : isDcOp (some (POp.load (V := V) k)) = false := rfl
+@[simp] theorem isDcOp_size : isDcOp (some (POp.size (K := K) (V := V))) = false := rfl
+@[simp] theorem isDcOp_clear : isDcOp (some (POp.clear (K := K) (V := V))) = false := rfl
+@[simp] theorem isDcOp_range : isDcOp (some (POp.range (K := K) (V := V))) = false := rfl
+@[simp] theorem isDcOp_none : isDcOp (none : Option (POp K V)) = false := rfl
+@[simp] theorem keyOf_dc : keyOf (some (POp.dc k f lie co)) = some k := rfl
+@[simp] theorem keyOf_load : keyOf (some (POp.load (V := V) k)) = some k := rfl
+@[simp] theorem keyOf_size : keyOf (some (POp.size (K := K) (V := V))) = none := rfl
+@[simp] theorem keyOf_clear : keyOf (some (POp.clear (K := K) (V := V))) = none := rfl
+@[simp] theorem keyOf_range : keyOf (some (POp.range (K := K) (V := V))) = none := rfl
+@[simp] theorem keyOf_none : keyOf (none : Option (POp K V)) = none := rfl
+@[simp] theorem flagsOf_dc : flagsOf (some (POp.dc k f lie co)) = (lie, co) := rfl
+@[simp] theorem flagsOf_load : flagsOf (some (POp.load (V := V) k)) = (false, false) := rfl
+@[simp] theorem flagsOf_size : flagsOf (some (POp.size (K := K) (V := V))) = (false, false) := rfl
+@[simp] theorem flagsOf_clear : flagsOf (some (POp.clear (K := K) (V := V))) = (false, false) := rfl
+@[simp] theorem flagsOf_range : flagsOf (some (POp.range (K := K) (V := V))) = (false, false) := rfl
+@[simp] theorem flagsOf_none : flagsOf (none : Option (POp K V)) = (false, false) := rfl
+end
+
+theorem isDcOp_key (o : Option (POp K V)) (h : isDcOp o = true) : (keyOf o).isSome = true := by
+  unfold isDcOp at h; unfold keyOf; split at h <;> simp_all
+
+theorem isDcOp_cases (o : Option (POp K V)) (h : isDcOp o = true) : ∃ k f lie co, o = some (.dc k f lie co) := by
+  unfold isDcOp at h; split at h
+  · exact ⟨_, _, _, _, rfl⟩
+  · simp at h
+
+/-- shape of the continuation stack, by pc -/
+def contsOK (pc : Pc) (cs : List Cont) : Prop :=
+  (inRz pc = false → inWf pc = false → cs = []) ∧
+  (inRz pc = true → cs = [.dcRetry] ∨ cs = [.dcDone] ∨ cs = [.clDone]) ∧
+  (inWf pc = true → cs = [.dcRetry] ∨ cs = [.rzAfterWait, .dcRetry] ∨ cs = [.rzAfterWait, .dcDone] ∨ cs = [.rzAfterWait, .clDone])
+
+/-- the call is past the user function (or has skipped it for good) -/
+def postDc (l : L K V) : Prop :=
+  l.pc = .dcUnlock ∨ l.pc = .dcAddSize ∨ l.pc = .dcMaybeShrink ∨ (l.pc = .ret ∧ isDcOp l.op = true) ∨ .dcDone ∈ l.conts
+
+def PostOK (l : L K V) : Prop :=
+  ((dcFlags l).1 = false → l.fnCalls = 1) ∧
+  ((dcFlags l).1 = true → (dcFlags l).2 = false → ∀ v flag, l.result = some (.val v flag) → (l.fnCalls = 0 ↔ flag = true))
+
+/-- well-formedness of the locals (independent of the globals) -/
+structure WF (l : L K V) : Prop where
+  dcop : inDc l.pc = true → isDcOp l.op = true
+  nodc : nonDcPc l.pc = true → isDcOp l.op = false
+  ldkey : (l.pc = .ldTable ∨ l.pc = .ldRead) → (opKey l).isSome = true
+  cshape : contsOK l.pc l.conts
+  retry : .dcRetry ∈ l.conts → isDcOp l.op = true ∧ l.fnCalls = 0
+  cl : .clDone ∈ l.conts → isDcOp l.op = false
+  /-- no retry after the user function ran: every pc from which a retry edge leaves has `fnCalls = 0` -/
+  pre : (beforeFn l.pc = true ∨ l.pc = .dcFn) → l.fnCalls = 0
+  ldpre : l.pc = .ldRead → isDcOp l.op = true → l.fnCalls = 0 ∧ (dcFlags l).1 = true
+  fastlie : l.pc = .dcFast → (dcFlags l).1 = true
+  cm : l.pc = .dcCommit → l.fnCalls = 1 ∧ l.fnres.isSome = true
+  le : l.fnCalls ≤ 1
+  lieold : (l.pc = .dcFn ∨ l.pc = .dcCommit) → (dcFlags l).1 = true → l.old = none
+  post : postDc l → PostOK l
+
+def GI (g : G K V) : Prop := (g.resizing = true ↔ g.resizer.isSome) ∧ g.cur < g.ntables
 
 structure LI (u : Tid) (g : G K V) (l : L K V) : Prop where
-  /-- bucket-lock ownership is exactly what the pc says -/
   lock : ∀ T i, (g.tables T).lock i = some u ↔ holdsBucket l = some (T, i)
   mu : g.mu = some u ↔ holdsMu l.pc = true
   rsz : g.resizer = some u ↔ isResizer l.pc = true
-  /-- no lost wake-up: a thread on the notify list is parked, and the resize it waits for is still in
-  progress or its broadcast is pending -/
   park : g.waiting u = true → l.pc = .wfPark ∧ (g.resizing = true ∨ g.bcaster.isSome)
   bc : l.pc = .rzBroadcast ↔ g.bcaster = some u
+  tblLt : usesTbl l.pc = true → l.tbl < g.ntables
+  rtblLt : usesRtbl l.pc = true → l.rtbl < g.ntables
+  newTLt : usesNewT l.pc = true → l.newT < g.ntables
+  framesLt : ∀ f ∈ l.frames, f.tbl < g.ntables
+  wf : WF l
+
+/-- the part of `LI` that mentions the globals -/
+structure LIg (u : Tid) (g : G K V) (l : L K V) : Prop where
+  lock : ∀ T i, (g.tables T).lock i = some u ↔ holdsBucket l = some (T, i)
+  mu : g.mu = some u ↔ holdsMu l.pc = true
+  rsz : g.resizer = some u ↔ isResizer l.pc = true
+  park : g.waiting u = true → l.pc = .wfPark ∧ (g.resizing = true ∨ g.bcaster.isSome)
+  bc : l.pc = .rzBroadcast ↔ g.bcaster = some u
+  tblLt : usesTbl l.pc = true → l.tbl < g.ntables
+  rtblLt : usesRtbl l.pc = true → l.rtbl < g.ntables
+  newTLt : usesNewT l.pc = true → l.newT < g.ntables
+  framesLt : ∀ f ∈ l.frames, f.tbl < g.ntables
+
+theorem LI.toLIg {u : Tid} {g : G K V} {l : L K V} (h : LI u g l) : LIg u g l :=
+  ⟨h.lock, h.mu, h.rsz, h.park, h.bc, h.tblLt, h.rtblLt, h.newTLt, h.framesLt⟩
+
+theorem LIg.toLI {u : Tid} {g : G K V} {l : L K V} (h : LIg u g l) (w : WF l) : LI u g l :=
+  ⟨h.lock, h.mu, h.rsz, h.park, h.bc, h.tblLt, h.rtblLt, h.newTLt, h.framesLt, w⟩
 
 def Inv (s : St K V) : Prop := GI s.g ∧ ∀ u, LI u s.g (s.l u)
+
+/-! ## part: WfStep -/
+
+variable (p : Params K)
+
+set_option hygiene false in
+local macro "wf_tac" : tactic => `(tactic| (
+      have hk := isDcOp_key l.op
+      repeat' split at hs
+      all_goals simp only [Option.some.injEq, reduceCtorEq, Prod.mk.injEq] at hs
+      all_goals obtain ⟨rfl, rfl⟩ := hs
+      all_goals (refine ⟨?_, ?_, ?_, ?_, ?_, ?_, ?_, ?_, ?_, ?_, ?_, ?_, ?_⟩)
+      all_goals simp_all [inDc, nonDcPc, contsOK, inRz, inWf, beforeFn, postDc, PostOK, opKey_eq, dcFlags_eq, callResize, callWait]))
+
+set_option hygiene false in
+local macro "wf_case" n:ident pc:term : command =>
+  `(theorem $n {K V : Type} [DecidableEq K] (p : Params K) (t : Tid) (g : G K V) (l : L K V) (c : Choice K V) (g' : G K V) (l' : L K V)
+    (hl : WF l) (hpc : l.pc = $pc) (hs : tstep p t g l c = some (g', l')) : WF l' := by
+  obtain ⟨h1, h2, h3, h4, h5, h6, h7, h8, h9, h10, h11, h12, h13⟩ := hl
+  simp only [tstep, hpc, opKey_eq, dcFlags_eq] at hs
+  wf_tac)
+
+set_option hygiene false in
+local macro "wf_case_op" n:ident pc:term : command =>
+  `(theorem $n {K V : Type} [DecidableEq K] (p : Params K) (t : Tid) (g : G K V) (l : L K V) (c : Choice K V) (g' : G K V) (l' : L K V)
+    (hl : WF l) (hpc : l.pc = $pc) (hs : tstep p t g l c = some (g', l')) : WF l' := by
+  obtain ⟨h1, h2, h3, h4, h5, h6, h7, h8, h9, h10, h11, h12, h13⟩ := hl
+  rcases hop : l.op with _ | (_ | _ | _ | _ | _)
+  all_goals simp only [tstep, hpc, opKey_eq, dcFlags_eq, hop] at hs
+  all_goals wf_tac)
+
+theorem wf_startOp (l : L K V) (op : POp K V) (hc : l.conts = []) (hle : l.fnCalls ≤ 1) : WF (startOp l op) := by
+  rcases op with _ | ⟨_, _, _ | _, _⟩ | _ | _ | _ <;> (refine ⟨?_, ?_, ?_, ?_, ?_, ?_, ?_, ?_, ?_, ?_, ?_, ?_, ?_⟩) <;>
+    simp_all [startOp, inDc, nonDcPc, contsOK, inRz, inWf, beforeFn, postDc, PostOK, opKey_eq, dcFlags_eq]
+
+theorem wf_idle (t : Tid) (g : G K V) (l : L K V) (c : Choice K V) (g' : G K V) (l' : L K V)
+    (hl : WF l) (hpc : l.pc = .idle) (hs : tstep p t g l c = some (g', l')) : WF l' := by
+  simp only [tstep, hpc] at hs
+  split at hs
+  · simp only [Option.some.injEq, Prod.mk.injEq] at hs
+    obtain ⟨rfl, rfl⟩ := hs
+    have := hl.cshape
+    exact wf_startOp _ _ (by simp_all [contsOK, inRz, inWf]) hl.le
+  · simp at hs
+
+
+
+theorem conts_cases (l : L K V) (hl : WF l) (h : inRz l.pc = true ∨ inWf l.pc = true) :
+    l.conts = [.dcRetry] ∨ l.conts = [.dcDone] ∨ l.conts = [.clDone] ∨ l.conts = [.rzAfterWait, .dcRetry]
+      ∨ l.conts = [.rzAfterWait, .dcDone] ∨ l.conts = [.rzAfterWait, .clDone] := by
+  have h4 := hl.cshape
+  rcases h with h | h
+  · have := h4.2.1 h; grind
+  · have := h4.2.2 h; grind
+
+theorem popCont_cases (l : L K V) (hl : WF l) (h : inRz l.pc = true ∨ inWf l.pc = true) :
+    (popCont l = { l with pc := .dcLoadTable, conts := [] } ∧ .dcRetry ∈ l.conts) ∨
+    (popCont l = { l with pc := .ret, conts := [] } ∧ .dcDone ∈ l.conts) ∨
+    (popCont l = { l with pc := .ret, conts := [], result := some .unit } ∧ .clDone ∈ l.conts) ∨
+    (∃ c, popCont l = { l with pc := .rzCas, conts := [c] } ∧ l.conts = [.rzAfterWait, c] ∧ c ≠ .rzAfterWait) := by
+  by_cases hh : l.hint = .clear <;> rcases conts_cases l hl h with hc | hc | hc | hc | hc | hc <;>
+    simp [popCont, popCont.popContAux, hc, hh]
+
+theorem wf_popA (l : L K V) (hl : WF l) (hc : .dcRetry ∈ l.conts) :
+    WF { l with pc := .dcLoadTable, conts := [] } := by
+  obtain ⟨h1, h2, h3, h4, h5, h6, h7, h8, h9, h10, h11, h12, h13⟩ := hl
+  (refine ⟨?_, ?_, ?_, ?_, ?_, ?_, ?_, ?_, ?_, ?_, ?_, ?_, ?_⟩) <;>
+    simp_all [inDc, nonDcPc, contsOK, inRz, inWf, beforeFn, postDc, PostOK, opKey_eq, dcFlags_eq]
+
+theorem wf_popB (l : L K V) (hl : WF l) (hc : .dcDone ∈ l.conts) :
+    WF { l with pc := .ret, conts := [] } := by
+  obtain ⟨h1, h2, h3, h4, h5, h6, h7, h8, h9, h10, h11, h12, h13⟩ := hl
+  (refine ⟨?_, ?_, ?_, ?_, ?_, ?_, ?_, ?_, ?_, ?_, ?_, ?_, ?_⟩) <;>
+    simp_all [inDc, nonDcPc, contsOK, inRz, inWf, beforeFn, postDc, PostOK, opKey_eq, dcFlags_eq]
+
+theorem wf_popC (l : L K V) (hl : WF l) (hc : .clDone ∈ l.conts) :
+    WF { l with pc := .ret, conts := [], result := some .unit } := by
+  obtain ⟨h1, h2, h3, h4, h5, h6, h7, h8, h9, h10, h11, h12, h13⟩ := hl
+  (refine ⟨?_, ?_, ?_, ?_, ?_, ?_, ?_, ?_, ?_, ?_, ?_, ?_, ?_⟩) <;>
+    simp_all [inDc, nonDcPc, contsOK, inRz, inWf, beforeFn, postDc, PostOK, opKey_eq, dcFlags_eq]
+
+theorem wf_popD_dcRetry (l : L K V) (hl : WF l) (hc : l.conts = [.rzAfterWait, .dcRetry]) :
+    WF { l with pc := .rzCas, conts := [.dcRetry] } := by
+  obtain ⟨h1, h2, h3, h4, h5, h6, h7, h8, h9, h10, h11, h12, h13⟩ := hl
+  (refine ⟨?_, ?_, ?_, ?_, ?_, ?_, ?_, ?_, ?_, ?_, ?_, ?_, ?_⟩) <;>
+    simp_all [inDc, nonDcPc, contsOK, inRz, inWf, beforeFn, postDc, PostOK, opKey_eq, dcFlags_eq]
+
+theorem wf_popD_dcDone (l : L K V) (hl : WF l) (hc : l.conts = [.rzAfterWait, .dcDone]) :
+    WF { l with pc := .rzCas, conts := [.dcDone] } := by
+  obtain ⟨h1, h2, h3, h4, h5, h6, h7, h8, h9, h10, h11, h12, h13⟩ := hl
+  (refine ⟨?_, ?_, ?_, ?_, ?_, ?_, ?_, ?_, ?_, ?_, ?_, ?_, ?_⟩) <;>
+    simp_all [inDc, nonDcPc, contsOK, inRz, inWf, beforeFn, postDc, PostOK, opKey_eq, dcFlags_eq]
+
+theorem wf_popD_clDone (l : L K V) (hl : WF l) (hc : l.conts = [.rzAfterWait, .clDone]) :
+    WF { l with pc := .rzCas, conts := [.clDone] } := by
+  obtain ⟨h1, h2, h3, h4, h5, h6, h7, h8, h9, h10, h11, h12, h13⟩ := hl
+  (refine ⟨?_, ?_, ?_, ?_, ?_, ?_, ?_, ?_, ?_, ?_, ?_, ?_, ?_⟩) <;>
+    simp_all [inDc, nonDcPc, contsOK, inRz, inWf, beforeFn, postDc, PostOK, opKey_eq, dcFlags_eq]
+
+theorem wf_popD (l : L K V) (hl : WF l) (c : Cont)
+    (hc : l.conts = [.rzAfterWait, c]) (hne : c ≠ .rzAfterWait) :
+    WF { l with pc := .rzCas, conts := [c] } := by
+  cases c
+  · exact wf_popD_dcRetry l hl hc
+  · exact wf_popD_dcDone l hl hc
+  · exact absurd rfl hne
+  · exact wf_popD_clDone l hl hc
+
+theorem wf_popCont (l : L K V) (hl : WF l) (h : inRz l.pc = true ∨ inWf l.pc = true) : WF (popCont l) := by
+  rcases popCont_cases l hl h with ⟨e, hc⟩ | ⟨e, hc⟩ | ⟨e, hc⟩ | ⟨c, e, hc, hne⟩ <;> rw [e]
+  · exact wf_popA l hl hc
+  · exact wf_popB l hl hc
+  · exact wf_popC l hl hc
+  · exact wf_popD l hl c hc hne
+
+wf_case wf_ldTable Pc.ldTable
+wf_case_op wf_ldRead Pc.ldRead
+wf_case wf_szTable Pc.szTable
+wf_case wf_szSum Pc.szSum
+wf_case wf_dcFast Pc.dcFast
+wf_case wf_dcLoadTable Pc.dcLoadTable
+wf_case wf_dcLock Pc.dcLock
+wf_case wf_dcChkResizing Pc.dcChkResizing
+wf_case wf_dcChkTable Pc.dcChkTable
+wf_case wf_dcScan Pc.dcScan
+wf_case wf_dcFn Pc.dcFn
+wf_case wf_dcCommit Pc.dcCommit
+wf_case wf_dcUnlock Pc.dcUnlock
+wf_case wf_dcAddSize Pc.dcAddSize
+wf_case wf_dcMaybeShrink Pc.dcMaybeShrink
+wf_case wf_dcUnlockWait Pc.dcUnlockWait
+wf_case wf_dcUnlockRetry Pc.dcUnlockRetry
+wf_case wf_dcUnlockGrow Pc.dcUnlockGrow
+wf_case wf_rzCas Pc.rzCas
+wf_case wf_rzLoadTable Pc.rzLoadTable
+wf_case wf_rzDecide Pc.rzDecide
+wf_case wf_rzCopyLock Pc.rzCopyLock
+wf_case wf_rzCopyDo Pc.rzCopyDo
+wf_case wf_rzCopyUnlock Pc.rzCopyUnlock
+wf_case wf_rzPublish Pc.rzPublish
+wf_case wf_rzMuLock Pc.rzMuLock
+wf_case wf_rzClearFlag Pc.rzClearFlag
+wf_case wf_rzBroadcast Pc.rzBroadcast
+wf_case wf_wfMuLock Pc.wfMuLock
+wf_case wf_wfChk Pc.wfChk
+wf_case wf_wfPark Pc.wfPark
+wf_case wf_wfRelock Pc.wfRelock
+wf_case wf_clTable Pc.clTable
+wf_case wf_rgTable Pc.rgTable
+wf_case wf_rgLock Pc.rgLock
+wf_case wf_rgCopy Pc.rgCopy
+wf_case wf_rgUnlock Pc.rgUnlock
+wf_case wf_ret Pc.ret
+
+theorem wf_rzFast (t : Tid) (g : G K V) (l : L K V) (c : Choice K V) (g' : G K V) (l' : L K V)
+    (hl : WF l) (hpc : l.pc = .rzFast) (hs : tstep p t g l c = some (g', l')) : WF l' := by
+  simp only [tstep, hpc] at hs
+  split at hs <;> simp only [Option.some.injEq, Prod.mk.injEq] at hs <;> obtain ⟨rfl, rfl⟩ := hs
+  · exact wf_popCont l hl (by simp [hpc, inRz])
+  · obtain ⟨h1, h2, h3, h4, h5, h6, h7, h8, h9, h10, h11, h12, h13⟩ := hl
+    (refine ⟨?_, ?_, ?_, ?_, ?_, ?_, ?_, ?_, ?_, ?_, ?_, ?_, ?_⟩) <;>
+      simp_all [inDc, nonDcPc, contsOK, inRz, inWf, beforeFn, postDc, PostOK, opKey_eq, dcFlags_eq]
+
+theorem wf_rzMuUnlock (t : Tid) (g : G K V) (l : L K V) (c : Choice K V) (g' : G K V) (l' : L K V)
+    (hl : WF l) (hpc : l.pc = .rzMuUnlock) (hs : tstep p t g l c = some (g', l')) : WF l' := by
+  simp only [tstep, hpc, Option.some.injEq, Prod.mk.injEq] at hs
+  obtain ⟨rfl, rfl⟩ := hs
+  exact wf_popCont l hl (by simp [hpc, inRz])
+
+theorem wf_wfMuUnlock (t : Tid) (g : G K V) (l : L K V) (c : Choice K V) (g' : G K V) (l' : L K V)
+    (hl : WF l) (hpc : l.pc = .wfMuUnlock) (hs : tstep p t g l c = some (g', l')) : WF l' := by
+  simp only [tstep, hpc, Option.some.injEq, Prod.mk.injEq] at hs
+  obtain ⟨rfl, rfl⟩ := hs
+  exact wf_popCont l hl (by simp [hpc, inWf])
+
+theorem wf_rgVisit (t : Tid) (g : G K V) (l : L K V) (c : Choice K V) (g' : G K V) (l' : L K V)
+    (hl : WF l) (hpc : l.pc = .rgVisit) (hs : tstep p t g l c = some (g', l')) : WF l' := by
+  simp only [tstep, hpc] at hs
+  split at hs
+  · simp only [Option.some.injEq, Prod.mk.injEq] at hs
+    obtain ⟨rfl, rfl⟩ := hs
+    have := hl.cshape
+    exact wf_startOp _ _ (by simp_all [contsOK, inRz, inWf]) hl.le
+  · obtain ⟨h1, h2, h3, h4, h5, h6, h7, h8, h9, h10, h11, h12, h13⟩ := hl
+    wf_tac
+
+/-- well-formedness of the locals is preserved by every step of the thread -/
+theorem wf_step (t : Tid) (g : G K V) (l : L K V) (c : Choice K V) (g' : G K V) (l' : L K V)
+    (hl : WF l) (hs : tstep p t g l c = some (g', l')) : WF l' := by
+  cases hpc : l.pc
+  · exact wf_idle p t g l c g' l' hl hpc hs
+  · exact wf_ldTable p t g l c g' l' hl hpc hs
+  · exact wf_ldRead p t g l c g' l' hl hpc hs
+  · exact wf_szTable p t g l c g' l' hl hpc hs
+  · exact wf_szSum p t g l c g' l' hl hpc hs
+  · exact wf_dcFast p t g l c g' l' hl hpc hs
+  · exact wf_dcLoadTable p t g l c g' l' hl hpc hs
+  · exact wf_dcLock p t g l c g' l' hl hpc hs
+  · exact wf_dcChkResizing p t g l c g' l' hl hpc hs
+  · exact wf_dcChkTable p t g l c g' l' hl hpc hs
+  · exact wf_dcScan p t g l c g' l' hl hpc hs
+  · exact wf_dcFn p t g l c g' l' hl hpc hs
+  · exact wf_dcCommit p t g l c g' l' hl hpc hs
+  · exact wf_dcUnlock p t g l c g' l' hl hpc hs
+  · exact wf_dcAddSize p t g l c g' l' hl hpc hs
+  · exact wf_dcMaybeShrink p t g l c g' l' hl hpc hs
+  · exact wf_dcUnlockWait p t g l c g' l' hl hpc hs
+  · exact wf_dcUnlockRetry p t g l c g' l' hl hpc hs
+  · exact wf_dcUnlockGrow p t g l c g' l' hl hpc hs
+  · exact wf_rzFast p t g l c g' l' hl hpc hs
+  · exact wf_rzCas p t g l c g' l' hl hpc hs
+  · exact wf_rzLoadTable p t g l c g' l' hl hpc hs
+  · exact wf_rzDecide p t g l c g' l' hl hpc hs
+  · exact wf_rzCopyLock p t g l c g' l' hl hpc hs
+  · exact wf_rzCopyDo p t g l c g' l' hl hpc hs
+  · exact wf_rzCopyUnlock p t g l c g' l' hl hpc hs
+  · exact wf_rzPublish p t g l c g' l' hl hpc hs
+  · exact wf_rzMuLock p t g l c g' l' hl hpc hs
+  · exact wf_rzClearFlag p t g l c g' l' hl hpc hs
+  · exact wf_rzBroadcast p t g l c g' l' hl hpc hs
+  · exact wf_rzMuUnlock p t g l c g' l' hl hpc hs
+  · exact wf_wfMuLock p t g l c g' l' hl hpc hs
+  · exact wf_wfChk p t g l c g' l' hl hpc hs
+  · exact wf_wfPark p t g l c g' l' hl hpc hs
+  · exact wf_wfRelock p t g l c g' l' hl hpc hs
+  · exact wf_wfMuUnlock p t g l c g' l' hl hpc hs
+  · exact wf_clTable p t g l c g' l' hl hpc hs
+  · exact wf_rgTable p t g l c g' l' hl hpc hs
+  · exact wf_rgLock p t g l c g' l' hl hpc hs
+  · exact wf_rgCopy p t g l c g' l' hl hpc hs
+  · exact wf_rgUnlock p t g l c g' l' hl hpc hs
+  · exact wf_rgVisit p t g l c g' l' hl hpc hs
+  · exact wf_ret p t g l c g' l' hl hpc hs
+
+/-! ## part: Self -/
+
+theorem ite_lock_app (c : Prop) [Decidable c] (a b : PTbl K V) (i : Nat) :
+    (if c then a else b).lock i = if c then a.lock i else b.lock i := by split <;> rfl
+
+set_option hygiene false in
+local macro "self_tac" : tactic => `(tactic| (
+      repeat' split at hs
+      all_goals simp only [Option.some.injEq, reduceCtorEq, Prod.mk.injEq] at hs
+      all_goals obtain ⟨rfl, rfl⟩ := hs
+      all_goals (refine ⟨⟨?_, ?_⟩, ⟨?_, ?_, ?_, ?_, ?_, ?_, ?_, ?_, ?_⟩⟩)
+      all_goals simp_all [holdsBucket, holdsMu, isResizer, usesTbl, usesRtbl, usesNewT, setTbl, PTbl.setLock, emptyTbl, callResize, callWait, ite_lock_app]
+      all_goals grind))
+
+set_option hygiene false in
+local macro "self_case" n:ident pc:term : command =>
+  `(theorem $n {K V : Type} [DecidableEq K] (p : Params K) (t : Tid) (g : G K V) (l : L K V) (c : Choice K V) (g' : G K V) (l' : L K V)
+    (hg : GI g) (hl : LIg t g l) (hpc : l.pc = $pc) (hs : tstep p t g l c = some (g', l')) : GI g' ∧ LIg t g' l' := by
+  obtain ⟨h1, h2, h3, h4, h5, h6, h7, h8, h9⟩ := hl
+  obtain ⟨hg1, hg2⟩ := hg
+  simp only [tstep, hpc] at hs
+  self_tac)
+
+self_case self_ldTable Pc.ldTable
+self_case self_ldRead Pc.ldRead
+self_case self_szTable Pc.szTable
+self_case self_szSum Pc.szSum
+self_case self_dcFast Pc.dcFast
+self_case self_dcLoadTable Pc.dcLoadTable
+self_case self_dcLock Pc.dcLock
+self_case self_dcChkResizing Pc.dcChkResizing
+self_case self_dcChkTable Pc.dcChkTable
+self_case self_dcScan Pc.dcScan
+self_case self_dcFn Pc.dcFn
+self_case self_dcCommit Pc.dcCommit
+self_case self_dcUnlock Pc.dcUnlock
+self_case self_dcAddSize Pc.dcAddSize
+self_case self_dcMaybeShrink Pc.dcMaybeShrink
+self_case self_dcUnlockWait Pc.dcUnlockWait
+self_case self_dcUnlockRetry Pc.dcUnlockRetry
+self_case self_dcUnlockGrow Pc.dcUnlockGrow
+self_case self_rzCas Pc.rzCas
+self_case self_rzLoadTable Pc.rzLoadTable
+self_case self_rzDecide Pc.rzDecide
+self_case self_rzCopyLock Pc.rzCopyLock
+self_case self_rzCopyDo Pc.rzCopyDo
+self_case self_rzCopyUnlock Pc.rzCopyUnlock
+self_case self_rzPublish Pc.rzPublish
+self_case self_rzMuLock Pc.rzMuLock
+self_case self_rzClearFlag Pc.rzClearFlag
+self_case self_rzBroadcast Pc.rzBroadcast
+self_case self_wfMuLock Pc.wfMuLock
+self_case self_wfChk Pc.wfChk
+self_case self_wfPark Pc.wfPark
+self_case self_wfRelock Pc.wfRelock
+self_case self_clTable Pc.clTable
+self_case self_rgTable Pc.rgTable
+self_case self_rgLock Pc.rgLock
+self_case self_rgCopy Pc.rgCopy
+self_case self_rgUnlock Pc.rgUnlock
+self_case self_ret Pc.ret
+
+theorem popContAux_pc (l : L K V) :
+    ((popCont.popContAux l).pc = .ret ∨ (popCont.popContAux l).pc = .dcLoadTable) ∧ (popCont.popContAux l).frames = l.frames := by
+  unfold popCont.popContAux; split <;> simp
+
+theorem popCont_pc (l : L K V) :
+    ((popCont l).pc = .ret ∨ (popCont l).pc = .dcLoadTable ∨ (popCont l).pc = .rzCas) ∧ (popCont l).frames = l.frames := by
+  unfold popCont; split <;> (try split) <;> (try simp)
+  rename_i cs _ _
+  have := popContAux_pc { l with conts := cs }
+  grind
+
+theorem startOp_pc (l : L K V) (op : POp K V) :
+    ((startOp l op).pc = .ldTable ∨ (startOp l op).pc = .dcFast ∨ (startOp l op).pc = .dcLoadTable ∨ (startOp l op).pc = .szTable
+      ∨ (startOp l op).pc = .clTable ∨ (startOp l op).pc = .rgTable) ∧ (startOp l op).frames = l.frames := by
+  rcases op with _ | ⟨_, _, _ | _, _⟩ | _ | _ | _ <;> simp [startOp]
+
+/-- a thread at a pc that holds nothing satisfies `LIg` as soon as the globals agree -/
+theorem LIg_of_quiet (u : Tid) (g : G K V) (l : L K V)
+    (hpc : l.pc = .ret ∨ l.pc = .dcLoadTable ∨ l.pc = .rzCas ∨ l.pc = .ldTable ∨ l.pc = .dcFast ∨ l.pc = .szTable
+      ∨ l.pc = .clTable ∨ l.pc = .rgTable)
+    (hlock : ∀ T i, (g.tables T).lock i ≠ some u) (hmu : g.mu ≠ some u) (hr : g.resizer ≠ some u)
+    (hw : g.waiting u = false) (hb : g.bcaster ≠ some u) (hf : ∀ f ∈ l.frames, f.tbl < g.ntables) : LIg u g l := by
+  rcases hpc with h | h | h | h | h | h | h | h <;> (refine ⟨?_, ?_, ?_, ?_, ?_, ?_, ?_, ?_, ?_⟩) <;>
+    simp_all [holdsBucket, holdsMu, isResizer, usesTbl, usesRtbl, usesNewT]
+
+theorem self_idle (t : Tid) (g : G K V) (l : L K V) (c : Choice K V) (g' : G K V) (l' : L K V)
+    (hg : GI g) (hl : LIg t g l) (hpc : l.pc = .idle) (hs : tstep p t g l c = some (g', l')) : GI g' ∧ LIg t g' l' := by
+  obtain ⟨h1, h2, h3, h4, h5, h6, h7, h8, h9⟩ := hl
+  simp only [tstep, hpc] at hs
+  split at hs
+  · simp only [Option.some.injEq, Prod.mk.injEq] at hs
+    obtain ⟨rfl, rfl⟩ := hs
+    rename_i op _
+    obtain ⟨hp, hf⟩ := startOp_pc l op
+    refine ⟨hg, LIg_of_quiet _ _ _ (by grind) ?_ ?_ ?_ ?_ ?_ ?_⟩ <;> simp_all [holdsBucket, holdsMu, isResizer]
+  · simp at hs
+
+theorem self_rgVisit (t : Tid) (g : G K V) (l : L K V) (c : Choice K V) (g' : G K V) (l' : L K V)
+    (hg : GI g) (hl : LIg t g l) (hpc : l.pc = .rgVisit) (hs : tstep p t g l c = some (g', l')) : GI g' ∧ LIg t g' l' := by
+  obtain ⟨h1, h2, h3, h4, h5, h6, h7, h8, h9⟩ := hl
+  obtain ⟨hg1, hg2⟩ := hg
+  simp only [tstep, hpc] at hs
+  split at hs
+  · simp only [Option.some.injEq, Prod.mk.injEq] at hs
+    obtain ⟨rfl, rfl⟩ := hs
+    rename_i op _
+    obtain ⟨hp, hf⟩ := startOp_pc { l with frames := { tbl := l.tbl, ri := l.ri, snap := l.snap, visited := l.visited } :: l.frames } op
+    refine ⟨⟨hg1, hg2⟩, LIg_of_quiet _ _ _ (by grind) ?_ ?_ ?_ ?_ ?_ ?_⟩ <;> simp_all [holdsBucket, holdsMu, isResizer, usesTbl]
+  · self_tac
+
+theorem self_popCont (t : Tid) (g' : G K V) (l : L K V) (hg : GI g')
+    (hlock : ∀ T i, (g'.tables T).lock i ≠ some t) (hmu : g'.mu ≠ some t) (hr : g'.resizer ≠ some t)
+    (hw : g'.waiting t = false) (hb : g'.bcaster ≠ some t) (hf : ∀ f ∈ l.frames, f.tbl < g'.ntables) :
+    GI g' ∧ LIg t g' (popCont l) := by
+  obtain ⟨hp, hf'⟩ := popCont_pc l
+  exact ⟨hg, LIg_of_quiet _ _ _ (by grind) hlock hmu hr hw hb (by rw [hf']; exact hf)⟩
+
+theorem self_rzFast (t : Tid) (g : G K V) (l : L K V) (c : Choice K V) (g' : G K V) (l' : L K V)
+    (hg : GI g) (hl : LIg t g l) (hpc : l.pc = .rzFast) (hs : tstep p t g l c = some (g', l')) : GI g' ∧ LIg t g' l' := by
+  obtain ⟨h1, h2, h3, h4, h5, h6, h7, h8, h9⟩ := hl
+  simp only [tstep, hpc] at hs
+  split at hs <;> simp only [Option.some.injEq, Prod.mk.injEq] at hs <;> obtain ⟨rfl, rfl⟩ := hs
+  · apply self_popCont <;> simp_all [holdsBucket, holdsMu, isResizer]
+  · obtain ⟨hg1, hg2⟩ := hg
+    (refine ⟨⟨?_, ?_⟩, ⟨?_, ?_, ?_, ?_, ?_, ?_, ?_, ?_, ?_⟩⟩) <;>
+      simp_all [holdsBucket, holdsMu, isResizer, usesTbl, usesRtbl, usesNewT]
+
+theorem self_rzMuUnlock (t : Tid) (g : G K V) (l : L K V) (c : Choice K V) (g' : G K V) (l' : L K V)
+    (hg : GI g) (hl : LIg t g l) (hpc : l.pc = .rzMuUnlock) (hs : tstep p t g l c = some (g', l')) : GI g' ∧ LIg t g' l' := by
+  obtain ⟨h1, h2, h3, h4, h5, h6, h7, h8, h9⟩ := hl
+  simp only [tstep, hpc, Option.some.injEq, Prod.mk.injEq] at hs
+  obtain ⟨rfl, rfl⟩ := hs
+  apply self_popCont <;> simp_all [holdsBucket, holdsMu, isResizer, GI]
+
+theorem self_wfMuUnlock (t : Tid) (g : G K V) (l : L K V) (c : Choice K V) (g' : G K V) (l' : L K V)
+    (hg : GI g) (hl : LIg t g l) (hpc : l.pc = .wfMuUnlock) (hs : tstep p t g l c = some (g', l')) : GI g' ∧ LIg t g' l' := by
+  obtain ⟨h1, h2, h3, h4, h5, h6, h7, h8, h9⟩ := hl
+  simp only [tstep, hpc, Option.some.injEq, Prod.mk.injEq] at hs
+  obtain ⟨rfl, rfl⟩ := hs
+  apply self_popCont <;> simp_all [holdsBucket, holdsMu, isResizer, GI]
+
+theorem self_ok_g (t : Tid) (g : G K V) (l : L K V) (c : Choice K V) (g' : G K V) (l' : L K V)
+    (hg : GI g) (hl : LIg t g l) (hs : tstep p t g l c = some (g', l')) : GI g' ∧ LIg t g' l' := by
+  cases hpc : l.pc
+  · exact self_idle p t g l c g' l' hg hl hpc hs
+  · exact self_ldTable p t g l c g' l' hg hl hpc hs
+  · exact self_ldRead p t g l c g' l' hg hl hpc hs
+  · exact self_szTable p t g l c g' l' hg hl hpc hs
+  · exact self_szSum p t g l c g' l' hg hl hpc hs
+  · exact self_dcFast p t g l c g' l' hg hl hpc hs
+  · exact self_dcLoadTable p t g l c g' l' hg hl hpc hs
+  · exact self_dcLock p t g l c g' l' hg hl hpc hs
+  · exact self_dcChkResizing p t g l c g' l' hg hl hpc hs
+  · exact self_dcChkTable p t g l c g' l' hg hl hpc hs
+  · exact self_dcScan p t g l c g' l' hg hl hpc hs
+  · exact self_dcFn p t g l c g' l' hg hl hpc hs
+  · exact self_dcCommit p t g l c g' l' hg hl hpc hs
+  · exact self_dcUnlock p t g l c g' l' hg hl hpc hs
+  · exact self_dcAddSize p t g l c g' l' hg hl hpc hs
+  · exact self_dcMaybeShrink p t g l c g' l' hg hl hpc hs
+  · exact self_dcUnlockWait p t g l c g' l' hg hl hpc hs
+  · exact self_dcUnlockRetry p t g l c g' l' hg hl hpc hs
+  · exact self_dcUnlockGrow p t g l c g' l' hg hl hpc hs
+  · exact self_rzFast p t g l c g' l' hg hl hpc hs
+  · exact self_rzCas p t g l c g' l' hg hl hpc hs
+  · exact self_rzLoadTable p t g l c g' l' hg hl hpc hs
+  · exact self_rzDecide p t g l c g' l' hg hl hpc hs
+  · exact self_rzCopyLock p t g l c g' l' hg hl hpc hs
+  · exact self_rzCopyDo p t g l c g' l' hg hl hpc hs
+  · exact self_rzCopyUnlock p t g l c g' l' hg hl hpc hs
+  · exact self_rzPublish p t g l c g' l' hg hl hpc hs
+  · exact self_rzMuLock p t g l c g' l' hg hl hpc hs
+  · exact self_rzClearFlag p t g l c g' l' hg hl hpc hs
+  · exact self_rzBroadcast p t g l c g' l' hg hl hpc hs
+  · exact self_rzMuUnlock p t g l c g' l' hg hl hpc hs
+  · exact self_wfMuLock p t g l c g' l' hg hl hpc hs
+  · exact self_wfChk p t g l c g' l' hg hl hpc hs
+  · exact self_wfPark p t g l c g' l' hg hl hpc hs
+  · exact self_wfRelock p t g l c g' l' hg hl hpc hs
+  · exact self_wfMuUnlock p t g l c g' l' hg hl hpc hs
+  · exact self_clTable p t g l c g' l' hg hl hpc hs
+  · exact self_rgTable p t g l c g' l' hg hl hpc hs
+  · exact self_rgLock p t g l c g' l' hg hl hpc hs
+  · exact self_rgCopy p t g l c g' l' hg hl hpc hs
+  · exact self_rgUnlock p t g l c g' l' hg hl hpc hs
+  · exact self_rgVisit p t g l c g' l' hg hl hpc hs
+  · exact self_ret p t g l c g' l' hg hl hpc hs
+
+/-! ## part: Other -/
+
+theorem holds_lt {u : Tid} {g : G K V} {m : L K V} (hm : LIg u g m) (T i : Nat)
+    (h : holdsBucket m = some (T, i)) : T < g.ntables := by
+  have h6 := hm.tblLt; have h7 := hm.rtblLt
+  unfold holdsBucket at h
+  split at h <;> simp_all [usesTbl, usesRtbl] <;> omega
+
+theorem holdsMu_bc (pc : Pc) (h : pc = .rzBroadcast) : holdsMu pc = true := by subst h; rfl
+
+set_option hygiene false in
+local macro "other_tac" : tactic => `(tactic| (
+      repeat' split at hs
+      all_goals simp only [Option.some.injEq, reduceCtorEq, Prod.mk.injEq] at hs
+      all_goals obtain ⟨rfl, rfl⟩ := hs
+      all_goals (refine ⟨?_, ?_, ?_, ?_, ?_, ?_, ?_, ?_, ?_⟩)
+      all_goals (try simp only [setTbl, PTbl.setLock, emptyTbl, ite_lock_app])
+      all_goals grind))
+
+set_option hygiene false in
+local macro "other_case" n:ident pc:term : command =>
+  `(theorem $n {K V : Type} [DecidableEq K] (p : Params K) (t u : Tid) (g : G K V) (l m : L K V) (c : Choice K V) (g' : G K V) (l' : L K V)
+    (hne : u ≠ t) (hg : GI g) (hl : LIg t g l) (hm : LIg u g m) (hpc : l.pc = $pc) (hs : tstep p t g l c = some (g', l')) : LIg u g' m := by
+  have mlt := holds_lt hm
+  have hbm := holdsMu_bc m.pc
+  obtain ⟨h1, h2, h3, h4, h5, h6, h7, h8, h9⟩ := hl
+  simp only [holdsBucket, holdsMu, isResizer, usesTbl, usesRtbl, usesNewT, hpc] at h1 h2 h3 h4 h5 h6 h7 h8
+  obtain ⟨m1, m2, m3, m4, m5, m6, m7, m8, m9⟩ := hm
+  obtain ⟨hg1, hg2⟩ := hg
+  simp only [tstep, hpc] at hs
+  other_tac)
+
+other_case other_idle Pc.idle
+other_case other_ldTable Pc.ldTable
+other_case other_ldRead Pc.ldRead
+other_case other_szTable Pc.szTable
+other_case other_szSum Pc.szSum
+other_case other_dcFast Pc.dcFast
+other_case other_dcLoadTable Pc.dcLoadTable
+other_case other_dcLock Pc.dcLock
+other_case other_dcChkResizing Pc.dcChkResizing
+other_case other_dcChkTable Pc.dcChkTable
+other_case other_dcScan Pc.dcScan
+other_case other_dcFn Pc.dcFn
+other_case other_dcCommit Pc.dcCommit
+other_case other_dcUnlock Pc.dcUnlock
+other_case other_dcAddSize Pc.dcAddSize
+other_case other_dcMaybeShrink Pc.dcMaybeShrink
+other_case other_dcUnlockWait Pc.dcUnlockWait
+other_case other_dcUnlockRetry Pc.dcUnlockRetry
+other_case other_dcUnlockGrow Pc.dcUnlockGrow
+other_case other_rzFast Pc.rzFast
+other_case other_rzCas Pc.rzCas
+other_case other_rzLoadTable Pc.rzLoadTable
+other_case other_rzDecide Pc.rzDecide
+other_case other_rzCopyLock Pc.rzCopyLock
+other_case other_rzCopyDo Pc.rzCopyDo
+other_case other_rzCopyUnlock Pc.rzCopyUnlock
+other_case other_rzPublish Pc.rzPublish
+other_case other_rzMuLock Pc.rzMuLock
+other_case other_rzClearFlag Pc.rzClearFlag
+other_case other_rzBroadcast Pc.rzBroadcast
+other_case other_rzMuUnlock Pc.rzMuUnlock
+other_case other_wfMuLock Pc.wfMuLock
+other_case other_wfChk Pc.wfChk
+other_case other_wfPark Pc.wfPark
+other_case other_wfRelock Pc.wfRelock
+other_case other_wfMuUnlock Pc.wfMuUnlock
+other_case other_clTable Pc.clTable
+other_case other_rgTable Pc.rgTable
+other_case other_rgLock Pc.rgLock
+other_case other_rgCopy Pc.rgCopy
+other_case other_rgUnlock Pc.rgUnlock
+other_case other_rgVisit Pc.rgVisit
+other_case other_ret Pc.ret
+
+theorem other_ok_g (t u : Tid) (g : G K V) (l m : L K V) (c : Choice K V) (g' : G K V) (l' : L K V) (hne : u ≠ t)
+    (hg : GI g) (hl : LIg t g l) (hm : LIg u g m) (hs : tstep p t g l c = some (g', l')) : LIg u g' m := by
+  cases hpc : l.pc
+  · exact other_idle p t u g l m c g' l' hne hg hl hm hpc hs
+  · exact other_ldTable p t u g l m c g' l' hne hg hl hm hpc hs
+  · exact other_ldRead p t u g l m c g' l' hne hg hl hm hpc hs
+  · exact other_szTable p t u g l m c g' l' hne hg hl hm hpc hs
+  · exact other_szSum p t u g l m c g' l' hne hg hl hm hpc hs
+  · exact other_dcFast p t u g l m c g' l' hne hg hl hm hpc hs
+  · exact other_dcLoadTable p t u g l m c g' l' hne hg hl hm hpc hs
+  · exact other_dcLock p t u g l m c g' l' hne hg hl hm hpc hs
+  · exact other_dcChkResizing p t u g l m c g' l' hne hg hl hm hpc hs
+  · exact other_dcChkTable p t u g l m c g' l' hne hg hl hm hpc hs
+  · exact other_dcScan p t u g l m c g' l' hne hg hl hm hpc hs
+  · exact other_dcFn p t u g l m c g' l' hne hg hl hm hpc hs
+  · exact other_dcCommit p t u g l m c g' l' hne hg hl hm hpc hs
+  · exact other_dcUnlock p t u g l m c g' l' hne hg hl hm hpc hs
+  · exact other_dcAddSize p t u g l m c g' l' hne hg hl hm hpc hs
+  · exact other_dcMaybeShrink p t u g l m c g' l' hne hg hl hm hpc hs
+  · exact other_dcUnlockWait p t u g l m c g' l' hne hg hl hm hpc hs
+  · exact other_dcUnlockRetry p t u g l m c g' l' hne hg hl hm hpc hs
+  · exact other_dcUnlockGrow p t u g l m c g' l' hne hg hl hm hpc hs
+  · exact other_rzFast p t u g l m c g' l' hne hg hl hm hpc hs
+  · exact other_rzCas p t u g l m c g' l' hne hg hl hm hpc hs
+  · exact other_rzLoadTable p t u g l m c g' l' hne hg hl hm hpc hs
+  · exact other_rzDecide p t u g l m c g' l' hne hg hl hm hpc hs
+  · exact other_rzCopyLock p t u g l m c g' l' hne hg hl hm hpc hs
+  · exact other_rzCopyDo p t u g l m c g' l' hne hg hl hm hpc hs
+  · exact other_rzCopyUnlock p t u g l m c g' l' hne hg hl hm hpc hs
+  · exact other_rzPublish p t u g l m c g' l' hne hg hl hm hpc hs
+  · exact other_rzMuLock p t u g l m c g' l' hne hg hl hm hpc hs
+  · exact other_rzClearFlag p t u g l m c g' l' hne hg hl hm hpc hs
+  · exact other_rzBroadcast p t u g l m c g' l' hne hg hl hm hpc hs
+  · exact other_rzMuUnlock p t u g l m c g' l' hne hg hl hm hpc hs
+  · exact other_wfMuLock p t u g l m c g' l' hne hg hl hm hpc hs
+  · exact other_wfChk p t u g l m c g' l' hne hg hl hm hpc hs
+  · exact other_wfPark p t u g l m c g' l' hne hg hl hm hpc hs
+  · exact other_wfRelock p t u g l m c g' l' hne hg hl hm hpc hs
+  · exact other_wfMuUnlock p t u g l m c g' l' hne hg hl hm hpc hs
+  · exact other_clTable p t u g l m c g' l' hne hg hl hm hpc hs
+  · exact other_rgTable p t u g l m c g' l' hne hg hl hm hpc hs
+  · exact other_rgLock p t u g l m c g' l' hne hg hl hm hpc hs
+  · exact other_rgCopy p t u g l m c g' l' hne hg hl hm hpc hs
+  · exact other_rgUnlock p t u g l m c g' l' hne hg hl hm hpc hs
+  · exact other_rgVisit p t u g l m c g' l' hne hg hl hm hpc hs
+  · exact other_ret p t u g l m c g' l' hne hg hl hm hpc hs
+
+/-! ## part: Main -/
+
+theorem wf_init : WF (L.init : L K V) := by
+  refine ⟨?_, ?_, ?_, ?_, ?_, ?_, ?_, ?_, ?_, ?_, ?_, ?_, ?_⟩ <;>
+    simp [L.init, inDc, nonDcPc, contsOK, inRz, inWf, beforeFn, postDc]
+
+theorem inv_init : Inv (init (V := V) p) := by
+  refine ⟨⟨by simp [init], by simp [init]⟩, fun u => LIg.toLI ?_ wf_init⟩
+  refine ⟨?_, ?_, ?_, ?_, ?_, ?_, ?_, ?_, ?_⟩ <;>
+    simp [init, L.init, emptyTbl, holdsBucket, holdsMu, isResizer, usesTbl, usesRtbl, usesNewT]
+
+theorem self_ok (t : Tid) (g : G K V) (l : L K V) (c : Choice K V) (g' : G K V) (l' : L K V)
+    (hg : GI g) (hl : LI t g l) (hs : tstep p t g l c = some (g', l')) : GI g' ∧ LI t g' l' := by
+  have h := self_ok_g p t g l c g' l' hg hl.toLIg hs
+  exact ⟨h.1, h.2.toLI (wf_step p t g l c g' l' hl.wf hs)⟩
+
+theorem other_ok (t u : Tid) (g : G K V) (l m : L K V) (c : Choice K V) (g' : G K V) (l' : L K V) (hne : u ≠ t)
+    (hg : GI g) (hl : LI t g l) (hm : LI u g m) (hs : tstep p t g l c = some (g', l')) : LI u g' m :=
+  (other_ok_g p t u g l m c g' l' hne hg hl.toLIg hm.toLIg hs).toLI hm.wf
+
+theorem inv_step (s s' : St K V) (t : Tid) (c : Choice K V) (h : Inv s) (hs : step p s t c = some s') : Inv s' := by
+  unfold step at hs
+  split at hs
+  · simp at hs
+  · rename_i g' l' heq
+    simp only [Option.some.injEq] at hs; subst hs
+    have := self_ok p t s.g (s.l t) c g' l' h.1 (h.2 t) heq
+    refine ⟨this.1, fun u => ?_⟩
+    by_cases hu : u = t
+    · subst hu; simpa using this.2
+    · simpa [hu] using other_ok p t u s.g (s.l t) (s.l u) c g' l' hu h.1 (h.2 t) (h.2 u) heq
+
+theorem inv_run (sched : List (Tid × Choice K V)) (s s' : St K V) (h : Inv s) (hr : run p s sched = some s') : Inv s' := by
+  induction sched generalizing s with
+  | nil => simp only [run, Option.some.injEq] at hr; subst hr; exact h
+  | cons a rest ih =>
+    obtain ⟨t, c⟩ := a
+    simp only [run] at hr
+    split at hr
+    · rename_i s1 heq
+      exact ih s1 (inv_step p s s1 t c h heq) hr
+    · simp at hr
+
+/-- every reachable state satisfies the invariant -/
+theorem inv_reach (s : St K V) (h : Reach p s) : Inv s := by
+  obtain ⟨sched, hr⟩ := h
+  exact inv_run p sched _ s (inv_init p) hr
+
+/-! ### corollaries used by the property files -/
+
+/-- **mutual exclusion** of every bucket lock -/
+theorem mutex (s : St K V) (h : Reach p s) (t u : Tid) (T i : Nat)
+    (ht : holdsBucket (s.l t) = some (T, i)) (hu : holdsBucket (s.l u) = some (T, i)) : t = u := by
+  have hi := inv_reach p s h
+  have a := ((hi.2 t).lock T i).mpr ht
+  have b := ((hi.2 u).lock T i).mpr hu
+  rw [a] at b; exact Option.some.inj b
+
+/-- **every internal lock is released on every return path**: a thread that is idle, returning, or inside a
+Range visitor holds no bucket lock, not `resizeMu`, and not the `resizing` flag -/
+theorem locks_released (s : St K V) (h : Reach p s) (u : Tid)
+    (hpc : (s.l u).pc = .idle ∨ (s.l u).pc = .ret ∨ (s.l u).pc = .rgVisit) :
+    (∀ T i, (s.g.tables T).lock i ≠ some u) ∧ s.g.mu ≠ some u ∧ s.g.resizer ≠ some u := by
+  have hi := (inv_reach p s h).2 u
+  refine ⟨fun T i hc => ?_, fun hc => ?_, fun hc => ?_⟩
+  · have := (hi.lock T i).mp hc
+    rcases hpc with e | e | e <;> simp [holdsBucket, e] at this
+  · have := hi.mu.mp hc
+    rcases hpc with e | e | e <;> simp [holdsMu, e] at this
+  · have := hi.rsz.mp hc
+    rcases hpc with e | e | e <;> simp [isResizer, e] at this
+
+/-- **no lost wake-up**: whoever is parked on the condition variable is waiting for a resize that is still
+in progress, or the broadcast that wakes it is the very next step of the thread holding `resizeMu` -/
+theorem no_lost_wakeup (s : St K V) (h : Reach p s) (u : Tid) (hw : s.g.waiting u = true) :
+    (s.l u).pc = .wfPark ∧ (s.g.resizing = true ∨ ∃ b, (s.l b).pc = .rzBroadcast) := by
+  have hi := inv_reach p s h
+  obtain ⟨h1, h2⟩ := (hi.2 u).park hw
+  refine ⟨h1, ?_⟩
+  rcases h2 with hf | hb
+  · exact Or.inl hf
+  · right
+    cases hbo : s.g.bcaster with
+    | none => simp [hbo] at hb
+    | some b => exact ⟨b, ((hi.2 b).bc).mpr hbo⟩
+
+/-- the lookup pcs (`Load`, `Size`, the lock-free fast path of LoadOrStore/LoadOrCompute) are never blocked:
+no guard of theirs depends on another thread -/
+theorem reader_never_blocked (t : Tid) (g : G K V) (l : L K V) (c : Choice K V)
+    (hpc : l.pc = .ldTable ∨ l.pc = .szTable ∨ l.pc = .szSum ∨ l.pc = .dcFast ∨ (l.pc = .ldRead ∧ (opKey l).isSome)) :
+    (tstep p t g l c).isSome := by
+  rcases hpc with e | e | e | e | ⟨e, hk⟩ <;> simp only [tstep, e] <;> try rfl
+  cases hk' : opKey l with
+  | none => simp [hk'] at hk
+  | some k =>
+    dsimp only
+    split <;> (try split) <;> rfl
+
+/-- the steps of a lookup change nothing shared (they take no lock and write nothing) -/
+theorem reader_writes_nothing (t : Tid) (g : G K V) (l : L K V) (c : Choice K V) (g' : G K V) (l' : L K V)
+    (hpc : l.pc = .ldTable ∨ l.pc = .ldRead ∨ l.pc = .szTable ∨ l.pc = .szSum ∨ l.pc = .dcFast)
+    (hs : tstep p t g l c = some (g', l')) : g' = g := by
+  rcases hpc with e | e | e | e | e <;> simp only [tstep, e] at hs <;>
+    (repeat' split at hs) <;> simp only [Option.some.injEq, reduceCtorEq, Prod.mk.injEq] at hs <;> exact hs.1.symm
+
+/-! ## part: Dead -/
+
+/-- the guards of `tstep`: a well-formed thread that is not idle is enabled unless it waits for a bucket lock,
+for `resizeMu`, or is parked on the condition variable -/
+theorem tstep_isSome (t : Tid) (g : G K V) (l : L K V) (c : Choice K V) (hw : WF l)
+    (hidle : l.pc ≠ .idle)
+    (h1 : l.pc = .dcLock → (g.tables l.tbl).lock l.bi = none)
+    (h2 : l.pc = .rzCopyLock → l.ci < (g.tables l.rtbl).len → (g.tables l.rtbl).lock l.ci = none)
+    (h3 : l.pc = .rgLock → l.ri < (g.tables l.tbl).len → (g.tables l.tbl).lock l.ri = none)
+    (h4 : (l.pc = .rzMuLock ∨ l.pc = .wfMuLock ∨ l.pc = .wfRelock) → g.mu = none)
+    (h5 : l.pc = .wfPark → g.waiting t = false) : (tstep p t g l c).isSome = true := by
+  have hk := isDcOp_key l.op
+  have hd := hw.dcop
+  have hl := hw.ldkey
+  have hc := hw.cm
+  cases hpc : l.pc <;> simp only [tstep, hpc, opKey_eq] <;> simp only [hpc, opKey_eq, inDc] at * <;> try rfl
+  case dcFn =>
+    obtain ⟨k, f, lie, co, hop⟩ := isDcOp_cases l.op (hd trivial)
+    simp [hop]
+  case dcCommit =>
+    obtain ⟨k, f, lie, co, hop⟩ := isDcOp_cases l.op (hd trivial)
+    obtain ⟨-, hc⟩ := hc trivial
+    cases hf : l.fnres with
+    | none => simp [hf] at hc
+    | some r =>
+      obtain ⟨nv, del⟩ := r
+      simp only [hop, keyOf_dc]
+      (repeat' split) <;> rfl
+  all_goals (try (repeat' split) <;> first | rfl | simp_all | skip)
+
+theorem step_isSome_of (s : St K V) (u : Tid) (c : Choice K V) (h : (tstep p u s.g (s.l u) c).isSome = true) :
+    (step p s u c).isSome = true := by
+  unfold step
+  split
+  · rename_i heq; simp [heq] at h
+  · rfl
+
+/-- thread `u` is inside a call, not in a Range visitor, and enabled whatever the environment input -/
+def Live (s : St K V) (u : Tid) : Prop :=
+  (s.l u).pc ≠ .idle ∧ (s.l u).pc ≠ .rgVisit ∧ ∀ c, (step p s u c).isSome = true
+
+theorem live_of_pcs (s : St K V) (hi : Inv s) (w : Tid)
+    (hpc : holdsMu (s.l w).pc = true ∨ (holdsBucket (s.l w)).isSome = true ∨ (s.l w).pc = .rzBroadcast) : Live p s w := by
+  have hw := (hi.2 w).wf
+  refine ⟨?_, ?_, fun c => step_isSome_of p s w c (tstep_isSome p w s.g (s.l w) c hw ?_ ?_ ?_ ?_ ?_ ?_)⟩ <;>
+    (intro e; revert hpc; first | (rcases e with e | e | e <;> simp [holdsMu, holdsBucket, e]) | simp [holdsMu, holdsBucket, e])
+
+theorem live_mu (s : St K V) (hi : Inv s) (w : Tid) (h : s.g.mu = some w) : Live p s w :=
+  live_of_pcs p s hi w (Or.inl ((hi.2 w).mu.mp h))
+
+theorem live_lock (s : St K V) (hi : Inv s) (w : Tid) (T i : Nat) (h : (s.g.tables T).lock i = some w) : Live p s w :=
+  live_of_pcs p s hi w (Or.inr (Or.inl (by rw [((hi.2 w).lock T i).mp h]; rfl)))
+
+theorem live_bc (s : St K V) (hi : Inv s) (w : Tid) (h : s.g.bcaster = some w) : Live p s w :=
+  live_of_pcs p s hi w (Or.inr (Or.inr ((hi.2 w).bc.mpr h)))
+
+/-- a thread inside a call that is not parked is enabled, or waits for a lock whose holder is enabled -/
+theorem live_unparked (s : St K V) (hi : Inv s) (u : Tid)
+    (h1 : (s.l u).pc ≠ .idle) (h2 : (s.l u).pc ≠ .rgVisit) (h3 : (s.l u).pc = .wfPark → s.g.waiting u = false) :
+    ∃ w, Live p s w := by
+  by_cases hm : ((s.l u).pc = .rzMuLock ∨ (s.l u).pc = .wfMuLock ∨ (s.l u).pc = .wfRelock) ∧ s.g.mu ≠ none
+  · cases hmu : s.g.mu with
+    | none => exact absurd hmu hm.2
+    | some w => exact ⟨w, live_mu p s hi w hmu⟩
+  by_cases ha : (s.l u).pc = .dcLock ∧ (s.g.tables (s.l u).tbl).lock (s.l u).bi ≠ none
+  · cases hlk : (s.g.tables (s.l u).tbl).lock (s.l u).bi with
+    | none => exact absurd hlk ha.2
+    | some w => exact ⟨w, live_lock p s hi w _ _ hlk⟩
+  by_cases hb : (s.l u).pc = .rzCopyLock ∧ (s.g.tables (s.l u).rtbl).lock (s.l u).ci ≠ none
+  · cases hlk : (s.g.tables (s.l u).rtbl).lock (s.l u).ci with
+    | none => exact absurd hlk hb.2
+    | some w => exact ⟨w, live_lock p s hi w _ _ hlk⟩
+  by_cases hc : (s.l u).pc = .rgLock ∧ (s.g.tables (s.l u).tbl).lock (s.l u).ri ≠ none
+  · cases hlk : (s.g.tables (s.l u).tbl).lock (s.l u).ri with
+    | none => exact absurd hlk hc.2
+    | some w => exact ⟨w, live_lock p s hi w _ _ hlk⟩
+  refine ⟨u, h1, h2, fun c => step_isSome_of p s u c (tstep_isSome p u s.g (s.l u) c (hi.2 u).wf h1 ?_ ?_ ?_ ?_ h3)⟩
+  · intro e; exact Classical.byContradiction fun hn => ha ⟨e, hn⟩
+  · intro e _; exact Classical.byContradiction fun hn => hb ⟨e, hn⟩
+  · intro e _; exact Classical.byContradiction fun hn => hc ⟨e, hn⟩
+  · intro e; exact Classical.byContradiction fun hn => hm ⟨e, hn⟩
+
+/-- **deadlock freedom, strong form**: if some thread is inside a call (and not sitting in a Range visitor), then
+some thread that is itself inside a call (and not in a visitor) is enabled, for every environment input -/
+theorem deadlock_free_strong (s : St K V) (h : Reach p s) (t : Tid)
+    (hmid : (s.l t).pc ≠ .idle ∧ (s.l t).pc ≠ .rgVisit) : ∃ u, Live p s u := by
+  have hi := inv_reach p s h
+  by_cases hp : (s.l t).pc = .wfPark ∧ s.g.waiting t = true
+  · rcases ((hi.2 t).park hp.2).2 with hr | hb
+    · -- the resize is still in progress: its owner is not parked
+      have := hi.1.1.mp hr
+      cases hrz : s.g.resizer with
+      | none => simp [hrz] at this
+      | some r =>
+        have hpc := (hi.2 r).rsz.mp hrz
+        apply live_unparked p s hi r <;> (intro e; simp [isResizer, e] at hpc)
+    · cases hbo : s.g.bcaster with
+      | none => simp [hbo] at hb
+      | some b => exact ⟨b, live_bc p s hi b hbo⟩
+  · exact live_unparked p s hi t hmid.1 hmid.2 (fun e => by
+      cases hw : s.g.waiting t with
+      | false => rfl
+      | true => exact absurd ⟨e, hw⟩ hp)
+
+/-- **deadlock freedom**: in every reachable state in which some thread is inside a call (not idle, and not
+sitting in a Range visitor waiting for the visitor's next move), some thread can take a step.  (A blocked
+step is `none`; there are no spinning self-loops in the model.)  Corollary of `deadlock_free_strong`, which
+also says that the enabled thread is itself inside a call — so this is not the trivial "an idle thread can
+always start a new call". -/
+theorem deadlock_free (s : St K V) (h : Reach p s) (t : Tid)
+    (hmid : (s.l t).pc ≠ .idle ∧ (s.l t).pc ≠ .rgVisit) :
+    ∃ u c s', step p s u c = some s' := by
+  obtain ⟨u, -, -, hu⟩ := deadlock_free_strong p s h t hmid
+  have := hu {}
+  cases hs : step p s u {} with
+  | none => simp [hs] at this
+  | some s' => exact ⟨u, {}, s', hs⟩
+
+/-! ## part: Fn -/
+
+/-! ### the user function is called at most once per call (C05) -/
+
+/-- the user function runs at most once in a call (`fnCalls` is reset by `startOp` of every `doCompute` call) -/
+theorem fn_at_most_once (s : St K V) (h : Reach p s) (u : Tid) : (s.l u).fnCalls ≤ 1 :=
+  ((inv_reach p s h).2 u).wf.le
+
+/-- a call without the lock-free fast path (Store, LoadAndStore, Compute, LoadAndDelete, Delete) invokes its
+function exactly once, whatever retries a concurrent resize forced -/
+theorem fn_exactly_once_no_lie (s : St K V) (h : Reach p s) (u : Tid) (k : K) (f : Option V → V × Bool) (co : Bool)
+    (hop : (s.l u).op = some (.dc k f false co)) (hpc : (s.l u).pc = .ret) : (s.l u).fnCalls = 1 := by
+  have hw := ((inv_reach p s h).2 u).wf
+  have := (hw.post (Or.inr (Or.inr (Or.inr (Or.inl ⟨hpc, by rw [hop]; rfl⟩))))).1
+  apply this
+  simp [dcFlags_eq, hop]
+
+/-- LoadOrStore / LoadOrCompute: the function runs iff the call reports `loaded = false` -/
+theorem fn_iff_not_loaded (s : St K V) (h : Reach p s) (u : Tid) (k : K) (f : Option V → V × Bool)
+    (hop : (s.l u).op = some (.dc k f true false)) (hpc : (s.l u).pc = .ret) :
+    ∀ v flag, (s.l u).result = some (.val v flag) → ((s.l u).fnCalls = 0 ↔ flag = true) := by
+  have hw := ((inv_reach p s h).2 u).wf
+  have := (hw.post (Or.inr (Or.inr (Or.inr (Or.inl ⟨hpc, by rw [hop]; rfl⟩))))).2
+  apply this <;> simp [dcFlags_eq, hop]
+
+/-- **no retry after the user function ran**: at every pc of `doCompute` from which the call can still go back to
+`compute_attempt` (`beforeFn`, which contains `.dcLoadTable` and `.dcLock`; the pc `.dcFn` itself; the lock-free
+fast path; and anywhere inside `resize` / `waitForResize` with `.dcRetry` on the continuation stack) the function
+has not been called yet -/
+theorem no_retry_after_fn (s : St K V) (h : Reach p s) (u : Tid)
+    (hpc : beforeFn (s.l u).pc = true ∨ (s.l u).pc = .dcFn ∨ ((s.l u).pc = .ldRead ∧ isDcOp (s.l u).op = true)
+      ∨ .dcRetry ∈ (s.l u).conts) : (s.l u).fnCalls = 0 := by
+  have hw := ((inv_reach p s h).2 u).wf
+  rcases hpc with e | e | ⟨e, e'⟩ | e
+  · exact hw.pre (Or.inl e)
+  · exact hw.pre (Or.inr e)
+  · exact (hw.ldpre e e').1
+  · exact (hw.retry e).2
+
+/-- the same, read the other way: once the function has run in this call, the thread is at none of the pcs
+that precede the call of the function, and no `.dcRetry` continuation is pending -/
+theorem no_retry_after_fn' (s : St K V) (h : Reach p s) (u : Tid) (hfn : (s.l u).fnCalls = 1) :
+    beforeFn (s.l u).pc = false ∧ (s.l u).pc ≠ .dcLoadTable ∧ (s.l u).pc ≠ .dcLock ∧ (s.l u).pc ≠ .dcFn
+      ∧ .dcRetry ∉ (s.l u).conts := by
+  have key := no_retry_after_fn p s h u
+  refine ⟨?_, ?_, ?_, ?_, ?_⟩
+  · cases hb : beforeFn (s.l u).pc with
+    | false => rfl
+    | true => have := key (Or.inl hb); omega
+  · intro e; have := key (Or.inl (by rw [e]; rfl)); omega
+  · intro e; have := key (Or.inl (by rw [e]; rfl)); omega
+  · intro e; have := key (Or.inr (Or.inl e)); omega
+  · intro e; have := key (Or.inr (Or.inr (Or.inr e))); omega
+
+/-- at `.dcCommit` (the linearization point of a writer) the function has run exactly once -/
+theorem fn_once_at_commit (s : St K V) (h : Reach p s) (u : Tid) (hpc : (s.l u).pc = .dcCommit) :
+    (s.l u).fnCalls = 1 ∧ (s.l u).fnres.isSome = true :=
+  ((inv_reach p s h).2 u).wf.cm hpc
 
 end Proofs.ProtoLocks
